@@ -48,7 +48,8 @@ JWS_PATHS = ["jws.serialize_compact", "jws.serialize_json.flat", "jws.serialize_
 JWE_PATHS = ["jwe.encrypt_compact", "jwe.encrypt_json.arg", "jwe.encrypt_json.attached", "jwt.encode.jwe", "jwe.decrypt_compact",
              "jwe.decrypt_json.flat", "jwe.decrypt_json.general", "jwt.decode.jwe"]
 VARIANTS = ["ok", "ok-use", "ok-ops", "bad-use", "bad-ops", "empty-ops", "public-only", "kty-oct", "kty-RSA", "kty-EC", "kty-OKP-Ed", "kty-OKP-X",
-            "other-curve", "short", "long", "empty", "short8", "short16", "long8", "long16", "rsa-1024", "sender-other-curve", "sender-other-kty"]
+            "other-curve", "short", "long", "empty", "short8", "short16", "long8", "long16", "rsa-1024", "sender-other-curve", "sender-other-kty",
+            "inverse-ops", "rsa-2047", "rsa-2040", "sender-wrong-use"]
 JWE_OP = {"RSA": ("encrypt", "decrypt"), "KW": ("wrapKey", "unwrapKey"), "PBES2": ("deriveKey", "deriveKey")}
 
 
@@ -105,6 +106,11 @@ def make_variant(rng: Rng, base: RKey, variant: str, family: str, alg: str, enc:
     if variant == "bad-ops":
         bad = [other_op] if sig else [x for x in ("encrypt", "decrypt", "wrapKey", "unwrapKey", "deriveKey") if x != op][:2]
         return with_params(base, {"key_ops": bad}), needs_private or kty == "oct", (False if ops_judged else None)
+    if variant == "inverse-ops":
+        # the operation of the other direction only (its name may contain the needed one: "unwrapKey" / "wrapKey")
+        inverse = {"sign": "verify", "verify": "sign", "encrypt": "decrypt", "decrypt": "encrypt", "wrapKey": "unwrapKey", "unwrapKey": "wrapKey",
+                   "deriveKey": "deriveBits"}[op]
+        return with_params(base, {"key_ops": [inverse]}), needs_private or kty == "oct", (False if ops_judged else None)
     if variant == "empty-ops":
         # "key_ops": [] declares that the key may be used for nothing
         return with_params(base, {"key_ops": []}), needs_private or kty == "oct", (False if ops_judged else None)
@@ -147,6 +153,11 @@ def make_variant(rng: Rng, base: RKey, variant: str, family: str, alg: str, enc:
         if len(raw) == n or (variant != "empty" and not raw):
             return None
         return RKey("oct", k=raw), True, False
+    if variant in ("rsa-2047", "rsa-2040"):
+        # just below the 2048-bit minimum for encrypting a content key
+        if kty != "RSA" or sig:
+            return None
+        return K.make_rsa(rng, int(variant[4:])), True, (False if produce else None)
     if variant == "rsa-1024":
         if kty != "RSA":
             return None
@@ -281,6 +292,8 @@ def run_jwe_cell(node: Node, rng: Rng, alg: str, enc: str, variant: str, path: s
             snd = K.make_ec(rng, other) if other in rk.EC_CURVES else K.make_okp(rng, other)
         elif variant == "sender-other-kty":
             snd = K.make_okp(rng, "X25519") if sender.kty == "EC" else K.make_ec(rng, "P-256")
+        elif variant == "sender-wrong-use":
+            snd = RKey(sender.kty, sender.crv, sender.pub, sender.priv, None, {"use": "sig"})
         skw = {"sender_key": jose(snd, produce)}
     if variant.startswith("sender-"):
         if sender is None:
@@ -450,6 +463,17 @@ def _attacker_events(rng, node, res, tr):
             pass
         if alg == "RS256":
             texts.append(("pem-traditional", base.priv.private_bytes(ser.Encoding.PEM, ser.PrivateFormat.TraditionalOpenSSL, ser.NoEncryption())))
+    # key text as other tools write it: openssl's "Bag Attributes" preamble before the armour, a UTF-8 byte order mark,
+    # the OpenSSH key types for security keys and certificates
+    first_pem = next(t for n, t in texts if n == "pem-private")
+    first_ssh = next((t for n, t in texts if n == "openssh-public"), None)
+    texts.append(("pem-after-preamble", b"Bag Attributes\n    friendlyName: key\nKey Attributes: <No Attributes>\n" + first_pem))
+    texts.append(("pem-after-bom", b"\xef\xbb\xbf" + first_pem))
+    if first_ssh is not None:
+        blob = first_ssh.split(b" ")[1]
+        for t in (b"sk-ssh-ed25519@openssh.com", b"sk-ecdsa-sha2-nistp256@openssh.com", b"ssh-rsa-cert-v01@openssh.com",
+                  b"ssh-ed25519-cert-v01@openssh.com", b"ecdsa-sha2-nistp256-cert-v01@openssh.com"):
+            texts.append(("openssh-" + t.decode(), t + b" " + blob + b" user@host"))
     # the same texts the way they sit in files: after a blank line, indented, after CR LF
     texts += [(name + "+leading-" + tag, lead + text) for name, text in list(texts) for tag, lead in (("newline", b"\n"), ("spaces", b"  "), ("crlf", b"\r\n\r\n"))]
     for name, text in texts:
